@@ -155,6 +155,14 @@ def gen_b608(rng, thorough):
         ('cur.execute(*["select a from t where x=" + x])\n', "?"), ('cur.execute(q) if q else cur.execute("select a from t where x=" + x)\n', (M, M)),
         ('x = b"select a from t " + y\n', None), ('def f():\n    "select a from t " + x\n', (M, L)), ('"select a from t %s" % x\n', (M, L)),
     ]
+    # operator trees that are not a left spine: `%` binds tighter than `+`, parentheses nest to the right — every operand belongs to the statement text (seeded
+    # change C17-m13 followed the left operands only).  No literal here looks like SQL on its own.
+    docs += [
+        ('q = "SELECT %s " % cols + "FROM users WHERE id = %s" % ident\n', (M, L)), ('cur.execute("SELECT %s " % cols + "FROM users WHERE id = %s" % ident)\n', (M, M)),
+        ('cur.executemany("INSERT INTO " + ("t VALUES (%s)" % v), rows)\n', "?"), ('q = "select a " + ("from t where x = " + x)\n', "?"),
+        ('q = "delete " + ("from " + ("t where " + ("id = " + i)))\n', "?"),      # right-nested parentheses: not recognised by the unchanged code either (observed, not judged) ('q = "update t " + "set a = %s" % a + " where b = %s" % b\n', (M, L)),
+        ('cur.execute("select * " + ("from t" if c else "from u") + " where x = " + x)\n', "?"),
+    ]
     for src, exp in docs:
         out.append(Case("B608", src, exp, "b608:layout"))
     return out
